@@ -210,6 +210,22 @@ func body(s *simrt.Sim, tier string) {
 	otherSame, _, _ := enccommon.RefDocument(s, pt, "key1", kw, cph, 0)
 
 	v := &enccommon.Vault{S: s}
+	prior := false
+	if s.Choose(3, "priordecrypt") == 0 {
+		// the vault client keeps unwrapped keys, and the genuine document has been decrypted through it before the
+		// tampered one arrives: that earlier use must leave nothing behind that makes a bad document acceptable
+		v.Cached = true
+		prior = true
+		r, err := enc.Decrypt(bytes.NewReader(doc), enc.DecryptOptions{UnwrapKeyFn: v.Unwrapper("key1")})
+		if err != nil {
+			s.Fail("infra-prior-decrypt", err.Error())
+			return
+		}
+		if back, err := io.ReadAll(r); err != nil || !bytes.Equal(back, pt) {
+			s.Fail("infra-prior-decrypt", fmt.Sprintf("the genuine document gave %d bytes and %v", len(back), err))
+			return
+		}
+	}
 	mutated := doc
 	var what []string
 	srcFail := -1
@@ -312,6 +328,10 @@ func body(s *simrt.Sim, tier string) {
 		s.Fault("document.mutation")
 	}
 	desc := fmt.Sprintf("plaintext %d bytes, cipher %d: %v", len(pt), cph, what)
+	if prior {
+		desc += ", after the genuine document went through the same vault client (which keeps unwrapped keys)"
+		s.Fault("vault.key-cached")
+	}
 	src := &simio.Reader{C: s, Data: mutated, FailAt: srcFail}
 	if srcFail >= 0 {
 		src.FailErr = simio.FailureKinds[s.Choose(len(simio.FailureKinds), "srcerrkind")]
